@@ -30,17 +30,39 @@ fn strings(alpha: &[char], maxlen: usize) -> Vec<String> {
     out
 }
 
-/// run the automaton over the bytes of k; returns (is_match, max state id seen)
-fn run_lev(lev: &Levenshtein, k: &[u8]) -> (bool, usize) {
+/// run the automaton over the bytes of k
+fn run_lev(lev: &Levenshtein, k: &[u8]) -> bool {
     let mut st = lev.start();
-    let mut maxid = st.unwrap_or(0);
     for &b in k {
         st = lev.accept(&st, b);
-        if let Some(id) = st {
-            maxid = maxid.max(id);
+    }
+    lev.is_match(&st)
+}
+
+/// number of DISTINCT live states reachable from the start state over all 256 bytes (breadth first, through the public
+/// Automaton interface only, so it does not depend on how states are numbered); stops counting at `cap`
+fn reachable_states(lev: &Levenshtein, cap: usize) -> usize {
+    let mut seen: std::collections::HashSet<usize> = std::collections::HashSet::new();
+    let mut queue: Vec<Option<usize>> = vec![];
+    let s = lev.start();
+    if let Some(id) = s {
+        seen.insert(id);
+        queue.push(s);
+    }
+    while let Some(st) = queue.pop() {
+        for b in 0..=255u8 {
+            let n = lev.accept(&st, b);
+            if let Some(id) = n {
+                if seen.insert(id) {
+                    if seen.len() > cap {
+                        return seen.len();
+                    }
+                    queue.push(n);
+                }
+            }
         }
     }
-    (lev.is_match(&st), maxid)
+    seen.len()
 }
 
 /// q and k contain two DISTINCT scalars sharing a proper UTF-8 byte prefix (the class in which the repaired defect lived)
@@ -77,6 +99,11 @@ fn check_query(q: &str, d: u32, keys: &[String], set: Option<&Set<Vec<u8>>>, ev:
         Ok(Ok(l)) => l,
     };
     ev.count("build:Ok");
+    let nstates = reachable_states(&lev, 10_000);
+    if nstates > 10_000 {
+        ev.violate("lev-limit", format!("automaton for ({:?},{}) has more than 10000 distinct reachable states although the default limit is 10000", q, d), J::s(q));
+    }
+    ev.max("max:reachable-states-of-a-default-limit-automaton", nstates as u64);
     let mut bad = 0;
     let mut want_keys: Vec<&String> = vec![];
     for k in keys {
@@ -89,10 +116,7 @@ fn check_query(q: &str, d: u32, keys: &[String], set: Option<&Set<Vec<u8>>>, ev:
         if shares_prefix(q, k) {
             ev.count("triples:distinct-scalars-sharing-a-utf8-prefix");
         }
-        let (got, maxid) = run_lev(&lev, k.as_bytes());
-        if maxid >= 10_000 {
-            ev.violate("lev-limit", format!("automaton for ({:?},{}) uses state id {} although the limit is 10000", q, d, maxid), J::s(q));
-        }
+        let got = run_lev(&lev, k.as_bytes());
         if got != want && bad < 3 {
             bad += 1;
             ev.violate(
@@ -156,13 +180,14 @@ fn check_limits(q: &str, d: u32, probe_keys: &[String], ev: &mut Ev) {
                 if first_ok.is_none() {
                     first_ok = Some(limit);
                 }
+                let nstates = reachable_states(&lev, limit);
+                if nstates > limit {
+                    ev.violate("lev-limit", format!("new_with_limit({:?},{},{}) returned an automaton with more than {} distinct reachable states", q, d, limit, limit), J::s(q));
+                    return;
+                }
                 for k in probe_keys {
-                    let (g, maxid) = run_lev(&lev, k.as_bytes());
-                    let (r, _) = run_lev(&reference, k.as_bytes());
-                    if maxid >= limit {
-                        ev.violate("lev-limit", format!("new_with_limit({:?},{},{}) returned an automaton that reaches state id {} (more than {} states)", q, d, limit, maxid, limit), J::s(q));
-                        return;
-                    }
+                    let g = run_lev(&lev, k.as_bytes());
+                    let r = run_lev(&reference, k.as_bytes());
                     if g != r {
                         ev.violate("lev-limit", format!("new_with_limit({:?},{},{}) behaves differently from the default-limit automaton on {:?}", q, d, limit, k), J::s(q));
                         return;
@@ -258,7 +283,7 @@ pub fn run(ctx: &Ctx) -> i32 {
                         }
                         let k: String = k.into_iter().collect();
                         let want = levref::distance(&q, &k) <= 3;
-                        let (got, _) = run_lev(&lev, k.as_bytes());
+                        let got = run_lev(&lev, k.as_bytes());
                         ev.eval(None);
                         ev.distinct_extra += 1;
                         if got != want && bad < 2 {
@@ -349,7 +374,7 @@ pub fn run(ctx: &Ctx) -> i32 {
         ev,
         Spec {
             level: "exploration",
-            rule: "one evaluation = one (query, distance, key) triple: is_match after feeding the key's UTF-8 bytes to Levenshtein::new(q,d) compared with (edit distance over scalar values <= d); ALL q in A^<=3 (585; thorough A^<=4 = 4681) x d in {0,1,2} x ALL k in A^<=4 (4681) for A = {a, é, ê, ☃, ☄, 😀, 😁, 𝄞} (1-4 byte encodings, pairs sharing 1, 2 and 3 leading bytes), the same exhaustively (q,k in A2^<=3) for A2 = {a, é, ©, ☃, U+1603, 😀, U+1D600, U+5F600} (pairs sharing their continuation bytes but differing in the lead or a middle byte), one automaton with more than 65536 states (72-character query, d=3, limit 10^6) probed with 600 edited copies of the query, plus Set::search over the set of all keys for every (q,d), random queries/keys up to 8 scalars over ASCII + Latin/Cyrillic/CJK/emoji/boundary code points with d<=3, long queries against the default state limit, and new_with_limit series (limit 1.. first success + 2: error payload == limit, monotone, behaviour equal to the default-limit automaton, no state id >= limit); non-trivial = every triple; distinct = by construction / fingerprint of (q,d)",
+            rule: "one evaluation = one (query, distance, key) triple: is_match after feeding the key's UTF-8 bytes to Levenshtein::new(q,d) compared with (edit distance over scalar values <= d); ALL q in A^<=3 (585; thorough A^<=4 = 4681) x d in {0,1,2} x ALL k in A^<=4 (4681) for A = {a, é, ê, ☃, ☄, 😀, 😁, 𝄞} (1-4 byte encodings, pairs sharing 1, 2 and 3 leading bytes), the same exhaustively (q,k in A2^<=3) for A2 = {a, é, ©, ☃, U+1603, 😀, U+1D600, U+5F600} (pairs sharing their continuation bytes but differing in the lead or a middle byte), one automaton with more than 65536 states (72-character query, d=3, limit 10^6) probed with 600 edited copies of the query, plus Set::search over the set of all keys for every (q,d), random queries/keys up to 8 scalars over ASCII + Latin/Cyrillic/CJK/emoji/boundary code points with d<=3, long queries against the default state limit, and new_with_limit series (limit 1.. first success + 2: error payload == limit, monotone, behaviour equal to the default-limit automaton, no more than `limit` distinct reachable states, counted breadth-first through the public interface); non-trivial = every triple; distinct = by construction / fingerprint of (q,d)",
             assumptions: vec!["keys are valid UTF-8 (the statement's domain)".into()],
             floors: vec![("triples:within-distance", 10_000), ("triples:beyond-distance", 10_000), ("triples:distinct-scalars-sharing-a-utf8-prefix", 10_000), ("set-searches", 1000), ("limit-probes:TooManyStates", 100), ("limit-probes:Ok", 30)],
             exhaustive: Some(true),
